@@ -433,3 +433,8 @@ def replay_args(v):
     if v["key"] == "c04.frame_taken_then_pending.frame_lost":
         return ("c04_frame_lost", [])
     return None
+
+
+# native scenarios that exercise, against the real build, the behaviours this spec decides: on a tree where the spec finds no
+# violation every one of them must NOT reproduce (a scenario that reproduces there means the spec misses something)
+SCENARIOS = [('c04_frame_lost', []), ('c04_frame_lost', ['no_backpressure'])]
